@@ -78,3 +78,133 @@ Proof.
         apply alookup_In in L. exists c, x. split; [exact L|].
         apply (IH c x L (Hch c x L)). exists T. rewrite <- app_assoc. auto.
 Qed.
+
+Section Second.
+Variable P : path.
+Hypothesis P_ne : P <> [].
+Hypothesis P_plain : Forall plain P.
+
+Lemma inv_dirs_P : forall w cur, Inv P w true cur -> dirs_to w P.
+Proof.
+  intros w cur I d1 d2 E. symmetry in E.
+  destruct (snoc_cases _ d2) as [->|[d2' [z ->]]].
+  - rewrite app_nil_r in E. subst d1. rewrite <- (app_nil_r P). rewrite (inv_kinds _ _ _ _ I). reflexivity.
+  - assert (E' : removelast P = d1 ++ d2').
+    { rewrite <- E. rewrite app_assoc. rewrite removelast_last. reflexivity. }
+    apply (inv_parent _ _ _ _ I d1 d2' E').
+Qed.
+
+Lemma vk_nonnil : forall ex cur q, q <> [] ->
+  vk ex cur q = match find (fun e : path * str => path_eqb q (fst e ++ [s_job])) cur with
+                | Some e => Some (KLnk (snd e))
+                | None => if existsb (fun e : path * str => is_prefix q (fst e)) cur then Some KDir else None
+                end.
+Proof. intros ex cur q H. destruct q; [congruence|reflexivity]. Qed.
+
+Lemma vk_key_in : forall cur T, toks cur -> vk true cur (T ++ [s_job]) <> None -> In T (map fst cur).
+Proof.
+  intros cur T Ht H. unfold vk in H.
+  destruct (T ++ [s_job]) as [|x l] eqn:El; [destruct T; discriminate|]. rewrite <- El in H. clear El x l.
+  match type of H with context [find ?f cur] => destruct (find f cur) as [e|] eqn:F end.
+  - apply find_some in F. destruct F as [F1 F2]. apply path_eqb_eq in F2. apply app_inj_tail in F2.
+    destruct F2 as [-> _]. apply in_map. exact F1.
+  - match type of H with (if ?b then _ else _) <> _ => destruct b eqn:Ex end; [|congruence].
+    apply existsb_exists in Ex. destruct Ex as [e [Hin Hp]]. exfalso.
+    eapply (toks_no_job_last (fst e) (T ++ [s_job])); eauto.
+Qed.
+
+Lemma vk_key_of_in : forall cur T, toks cur -> In T (map fst cur) -> T <> [] ->
+  vk true cur (T ++ [s_job]) <> None /\ vk true cur T = Some KDir.
+Proof.
+  intros cur T Ht Hin Hne. apply in_map_iff in Hin. destruct Hin as [e [<- He]]. split.
+  - unfold vk. destruct (fst e ++ [s_job]) as [|x l] eqn:El; [destruct (fst e); discriminate|]. rewrite <- El. clear El x l.
+    match goal with |- context [find ?f cur] => destruct (find f cur) as [e'|] eqn:F end; [discriminate|].
+    exfalso. apply (find_none _ _ F e) in He. rewrite path_eqb_refl in He. discriminate.
+  - rewrite vk_nonnil by exact Hne.
+    rewrite find_none_ext.
+    + assert (Ex : existsb (fun e0 : path * str => is_prefix (fst e) (fst e0)) cur = true).
+      { apply existsb_exists. exists e. split; [exact He|apply is_prefix_refl]. }
+      match goal with |- (if ?b then _ else _) = _ => replace b with true by (symmetry; exact Ex) end. reflexivity.
+    + intros e' _. apply path_eqb_false. eapply toks_no_job_last; [apply (Ht e He)|apply is_prefix_refl].
+Qed.
+
+Lemma scan_of_inv : forall w cwd cur,
+  Inv P w true cur -> nwf w -> (forall e, In e cur -> fst e <> []) ->
+  forall d, In d (find_all_links w cwd (A P)) <-> In d (map fst cur).
+Proof.
+  intros w cwd cur I Hw Hroot d. unfold find_all_links.
+  rewrite absolutize_A by exact P_ne. rewrite walk_A by (auto; eapply inv_dirs_P; eauto).
+  destruct (kind_dir_get w P) as [es G].
+  { rewrite <- (app_nil_r P). rewrite (inv_kinds _ _ _ _ I). reflexivity. }
+  rewrite G.
+  assert (Hn : nwf (Dir es)) by (eapply nwf_get; eauto).
+  assert (Hk : forall q, kind_at (Dir es) q = vk true cur q).
+  { intro q. rewrite <- (inv_kinds _ _ _ _ I). unfold kind_at. rewrite get_app, G. reflexivity. }
+  assert (Hg : forall q, get (Dir es) q <> None <-> vk true cur q <> None).
+  { intro q. rewrite <- Hk. unfold kind_at. destruct (get (Dir es) q); simpl; split; congruence. }
+  split.
+  - intro H0. apply in_map_iff in H0. destruct H0 as [r [E Hr]]. apply (find_links_in_spec (Dir es) Hn [] r) in Hr.
+    destruct Hr as [T [-> [K Gj]]]. simpl in E. apply Hg in Gj.
+    apply (vk_key_in cur T (inv_tok _ _ _ _ I)) in Gj.
+    destruct T as [|x T']; [|subst d; exact Gj].
+    exfalso. apply in_map_iff in Gj. destruct Gj as [e [E0 He]]. apply (Hroot e He). exact E0.
+  - intro Hin. apply in_map_iff. exists d. assert (Hne : d <> []).
+    { intro; subst d. apply in_map_iff in Hin. destruct Hin as [e [E0 He]]. apply (Hroot e He). exact E0. }
+    split; [destruct d; [congruence|reflexivity]|].
+    apply (find_links_in_spec (Dir es) Hn [] d). exists d. split; [reflexivity|].
+    destruct (vk_key_of_in cur d (inv_tok _ _ _ _ I) Hin Hne) as [V1 V2].
+    split; [rewrite Hk; exact V2|apply Hg; exact V1].
+Qed.
+End Second.
+
+(* ------------------------------------------------------------------ the second run *)
+Definition no_root (sp : spec) : Prop := forall e, In e sp -> fst e <> [].
+
+Theorem second_run_noop : forall P (sp : spec) hint w n cwd,
+  P <> [] -> Forall plain P -> good_spec sp -> no_root sp -> nwf w ->
+  Inv P w true (map (placed P cwd) sp) ->
+  (forall e, In e sp -> realpath w cwd (pjoin (A P) (key_of e)) = snd e) ->
+  update_view hint (w, n) cwd (A P) (lk_of sp) = ok (w, n).
+Proof.
+  intros P sp hint w n cwd Pne Ppl [Hnd Ht] Hroot Hw I Hres.
+  assert (Hscan : forall d, In d (find_all_links w cwd (A P)) <-> In d (map fst sp)).
+  { intro d. rewrite (scan_of_inv P Pne Ppl w cwd _ I Hw).
+    - rewrite map_map. simpl. reflexivity.
+    - intros e He. apply in_map_iff in He. destruct He as [e0 [<- He0]]. simpl. apply Hroot. exact He0. }
+  unfold update_view. simpl fst.
+  assert (Han : analyze_view hint w cwd (A P) (lk_of sp) = {| a_obsolete := []; a_update := []; a_new := [] |}).
+  { unfold analyze_view. rewrite keys_of_lk by exact Ht.
+    set (existing := rev (pnodup (rev (map (fun d : path => d ++ [s_job]) (find_all_links w cwd (A P)))))).
+    assert (Hex : forall x, In x existing <-> In x (map key_of sp)).
+    { intro x. unfold existing. rewrite <- in_rev, pnodup_In, <- in_rev, !in_map_iff. split.
+      - intros [d [<- Hd]]. apply Hscan in Hd. apply in_map_iff in Hd. destruct Hd as [e [<- He]]. exists e. auto.
+      - intros [e [<- He]]. exists (fst e). split; [reflexivity|]. apply Hscan. apply in_map. exact He. }
+    assert (Hkeep : filter (fun e : path => path_mem e (map key_of sp)) existing = existing).
+    { apply filter_all. intros x Hx. apply path_mem_In. apply Hex. exact Hx. }
+    rewrite Hkeep.
+    assert (Hdead : filter (fun b : path => negb (is_nil b))
+              (find_dead_branches (fold_left (fun t k => color_path k t) (map key_of sp) (build_tree existing)) []) = []).
+    { apply nil_of_no_elements. intros b Hb. apply filter_In in Hb. destruct Hb as [Hb Hn].
+      apply (analysis_dead existing (map key_of sp) b) in Hb. destruct Hb as [H1 H2].
+      destruct b as [|x b']; [discriminate|]. simpl in H1.
+      unfold any_prefix in H1, H2. apply existsb_exists in H1. destruct H1 as [y [Hy Hp]].
+      assert (existsb (is_prefix (x :: b')) (map key_of sp) = true); [|congruence].
+      apply existsb_exists. exists y. split; [apply Hex; exact Hy|exact Hp]. }
+    assert (Hnew : filter (fun k : path => negb (path_mem k existing)) (map key_of sp) = []).
+    { apply filter_none. intros x Hx. apply negb_false_iff. apply path_mem_In. apply Hex. exact Hx. }
+    assert (Hupd : filter (fun p : path => match alookup (join_sep p) (lk_of sp) with
+                                            | Some tgt => negb (path_eqb (realpath w cwd (pjoin (A P) p)) tgt)
+                                            | None => false end) existing = []).
+    { apply filter_none. intros x Hx. apply Hex in Hx. apply in_map_iff in Hx. destruct Hx as [e [<- He]].
+      rewrite (lk_lookup sp e) by (split; auto). rewrite (Hres e He), path_eqb_refl. reflexivity. }
+    match goal with |- {| a_obsolete := ?o; a_update := ?u; a_new := ?nw |} = _ =>
+      assert (E1 : o = []); [|assert (E2 : u = []); [|assert (E3 : nw = []); [|rewrite E1, E2, E3; reflexivity]]] end.
+    - match goal with |- context [filter ?f (find_dead_branches ?t [])] =>
+        replace (filter f (find_dead_branches t [])) with (@nil path) by (symmetry; exact Hdead) end.
+      rewrite order_by_nil. reflexivity.
+    - match goal with |- order_by hint ?l = [] => replace l with (@nil path) by (symmetry; exact Hupd) end.
+      apply order_by_nil.
+    - match goal with |- order_by hint ?l = [] => replace l with (@nil path) by (symmetry; exact Hnew) end.
+      apply order_by_nil. }
+  rewrite Han. reflexivity.
+Qed.
